@@ -77,9 +77,7 @@ fault_report(struct mmgr *mm, const char *prop_ctx)
         for (int i = 0; i < B.n; i++)
                 if (B.it[i]->slot == g_fault.slot)
                         it = B.it[i];
-        const char *sname = it ? (it->cipher != IMB_CIPHER_NULL ? cipher_name(it->cipher)
-                                                                  : hash_name(it->hash))
-                               : "?";
+        const char *sname = it ? item_fault_suite(it, g_fault.kind) : "?";
         snprintf(key, sizeof key, "C07|%s|%s|%s|%s|%s", variant_name(mm->variant), sname,
                  g_fault.is_write ? "write" : "read", g_fault.kind,
                  g_fault.pl == PL_END ? "past-end" : "before-start");
